@@ -21,7 +21,8 @@ RULE = (
     "data directory (absent / empty / pre-populated by the reference model with 1..15 files, first file number 0, 1 or 7) and "
     "1..6 steps-groups of [restart] + write-batch of 0..4 blocks. Block sizes are drawn while simulating the model, relative to "
     "the space left in the model's current file: record fits exactly / 1 byte to spare / exceeds by 1 / tiny (0..3) / L-8 "
-    "(fills a file alone) / uniform; never > L-8. 'restart' = importlib.reload(bits.p2p) and re-patching. Target history "
+    "(fills a file alone) / uniform; never > L-8. 'restart' = importlib.reload(bits.p2p) and re-patching; every run of a history "
+    "also starts with a reload (fresh process). Target history "
     "compares the directory with the greedy reference model after every batch (stream, limit, split, append-only); target "
     "small-alphabet enumerates all histories of <=3 batches x <=2 blocks over 4 relative size classes from 2 initial states, "
     "without and with restarts between all batches; target crash dry-runs a history, numbers the fault points of its last "
